@@ -45,14 +45,12 @@ Proof. reflexivity. Qed.
 
 (* _Slice.means *)
 Lemma gen_wiring_Slice_means :
-  wsrc_Slice_means = Some (WTryValueError (w_matrix_of "means") "`.means` is undefined for a
-      cube-result without a mean measure").
+  wsrc_Slice_means = Some (WTryValueError (w_matrix_of "means") "").
 Proof. reflexivity. Qed.
 
 (* _Slice.medians *)
 Lemma gen_wiring_Slice_medians :
-  wsrc_Slice_medians = Some (WTryValueError (w_matrix_of "medians") "`.medians` is undefined for a
-      cube-result without a median measure").
+  wsrc_Slice_medians = Some (WTryValueError (w_matrix_of "medians") "").
 Proof. reflexivity. Qed.
 
 (* _Slice.shape *)
@@ -62,14 +60,12 @@ Proof. reflexivity. Qed.
 
 (* _Slice.stddev *)
 Lemma gen_wiring_Slice_stddev :
-  wsrc_Slice_stddev = Some (WTryValueError (w_matrix_of "stddev") "`.stddev` is undefined for a
-      cube-result without a stddev measure").
+  wsrc_Slice_stddev = Some (WTryValueError (w_matrix_of "stddev") "").
 Proof. reflexivity. Qed.
 
 (* _Slice.sums *)
 Lemma gen_wiring_Slice_sums :
-  wsrc_Slice_sums = Some (WTryValueError (w_matrix_of "sums") "`.sums` is undefined for a cube-result
-      without a sum measure").
+  wsrc_Slice_sums = Some (WTryValueError (w_matrix_of "sums") "").
 Proof. reflexivity. Qed.
 
 (* _Slice.unweighted_counts *)
@@ -90,14 +86,12 @@ Proof. reflexivity. Qed.
 
 (* _Strand.means *)
 Lemma gen_wiring_Strand_means :
-  wsrc_Strand_means = Some (WTryValueError (w_vector_of "means") "`.means` is undefined for a
-      cube-result without a mean measure").
+  wsrc_Strand_means = Some (WTryValueError (w_vector_of "means") "").
 Proof. reflexivity. Qed.
 
 (* _Strand.medians *)
 Lemma gen_wiring_Strand_medians :
-  wsrc_Strand_medians = Some (WTryValueError (w_vector_of "medians") "`.medians` is undefined for a
-      cube-result without a median measure").
+  wsrc_Strand_medians = Some (WTryValueError (w_vector_of "medians") "").
 Proof. reflexivity. Qed.
 
 (* _Strand.shape *)
@@ -107,14 +101,12 @@ Proof. reflexivity. Qed.
 
 (* _Strand.stddev *)
 Lemma gen_wiring_Strand_stddev :
-  wsrc_Strand_stddev = Some (WTryValueError (w_vector_of "stddev") "`.stddev` is undefined for a
-      cube-result without a stddev measure").
+  wsrc_Strand_stddev = Some (WTryValueError (w_vector_of "stddev") "").
 Proof. reflexivity. Qed.
 
 (* _Strand.sums *)
 Lemma gen_wiring_Strand_sums :
-  wsrc_Strand_sums = Some (WTryValueError (w_vector_of "sums") "`.sums` is undefined for a cube-result
-      without a sum measure").
+  wsrc_Strand_sums = Some (WTryValueError (w_vector_of "sums") "").
 Proof. reflexivity. Qed.
 
 (* _Strand.unweighted_counts *)
